@@ -1,24 +1,25 @@
-SPECIFICATION FairSpec
+SPECIFICATION Spec
 CONSTANTS
   Guids = {"g1", "g2"}
   RuleIds = {"r1"}
   Contents = {"c1"}
-  Versions = {"2.0"}
+  Versions = {"1.0"}
   ModeOf <- MCModeOf
   RulesKey = "item"
   IdsIdentifyContent = TRUE
   IncOf <- MCIncOf
   KeepHigherIncarnation = FALSE
-  ReuseUnattested = FALSE
+  ReuseUnattested = TRUE
   StateEarly = FALSE
-  InitScenarios = {"fresh", "haskey", "unreadable", "rotated"}
-  InitDocs <- DocsOne
-  MaxReconf = 1
-  MaxFaults = 1
-  MaxCrash = 1
+  InitScenarios = {"fresh"}
+  InitDocs <- DocsV1
+  MaxReconf = 0
+  MaxFaults = 2
+  MaxCrash = 0
   MaxDamage = 1
   MaxNotify = 0
   FsFaults = TRUE
   AcquireMayRepeat = TRUE
-PROPERTIES EventuallySettled EventuallyPolls
+INVARIANTS TypeOK LatchedIsRecoverable NoCorruptFinalName AttestOnlyAfterStoreAndReadBack RestartUsesLocal
+PROPERTIES AttestStep RenameOnlyComplete
 CHECK_DEADLOCK FALSE
